@@ -27,6 +27,18 @@ pub fn extract() {
         if name.is_empty() {
             continue;
         }
+        // directive name candidates: "@dir <name>" -> what `.name` and `#name` parse to
+        if let Some(cand) = name.strip_prefix("@dir ") {
+            for pre in [".", "#"] {
+                let text = format!("{}{}", pre, cand);
+                match document::directive(&text) {
+                    Ok(avra_lib::directive::Directive::Custom(_)) => println!("DIR {} Custom", text),
+                    Ok(d) => println!("DIR {} {:?}", text, d),
+                    Err(_) => println!("DIR {} -", text),
+                }
+            }
+            continue;
+        }
         // keyword recognition, lower and upper case
         for spelled in [name.clone(), name.to_uppercase()] {
             match document::operation(&spelled) {
